@@ -10,7 +10,7 @@ REG = dict(   # rename to REG once the findings below are triaged (fixed in /rep
           "Mutants = EVERY single-point edit of each base program: each subexpression replaced by each of 19 literal alternatives (every grammar type, wrong-payload "
           "Option/List, empty list, tuple, closure, constructor, Float, Unit, throw) and by every name in scope, an unbound name and the function names; operator, "
           "callee, method name (17), field name, struct field/type name, pattern (11) and every annotation (10) replaced; an argument / parameter / struct field / "
-          "closure parameter dropped or added; a match arm or an else dropped; a returned value dropped or added; binders renamed. Plus, for every binder whose scope ends before the function body does (for variable, let inside an if/else/match-arm/for/while block, match payload, closure parameter, parameter of the other function), a reference to the bound name in a later statement of the function (variable referenced out of scope). Plus 99 frame-boundary programs: a local variable of the top level (plain, annotated, defined later, inside a top-level block) used in nine positions of a function or method body, which runs in a frame of its own; and 72 programs reading a field whose hint is a type parameter of its struct from a receiver with a known type argument, used at its own and at every other type of a small pool. "
+          "closure parameter dropped or added; a match arm or an else dropped; a returned value dropped or added; binders renamed. Plus, for every binder whose scope ends before the function body does (for variable, let inside an if/else/match-arm/for/while block, match payload, closure parameter, parameter of the other function), a reference to the bound name in a later statement of the function (variable referenced out of scope). Plus 99 frame-boundary programs: a local variable of the top level (plain, annotated, defined later, inside a top-level block) used in nine positions of a function or method body, which runs in a frame of its own; and 72 programs reading a field whose hint is a type parameter of its struct from a receiver with a known type argument, used at its own and at every other type of a small pool; and 42 programs with tuple patterns in `let`, `for` and match payloads against tuple types of the same and of another size. "
           "quick: depth 1 (canonical parameter fill) with all edits + depth 2 for one outer context per (inner template, role of the slot) with all edits inside "
           "the expanded slot (11-literal alphabet): ~46k programs. thorough: depth 1 with every parameter/literal fill and depth 2 for every outer context, all "
           "edits (~395k), plus every PAIR of disjoint edits (11-literal alphabet, leaves only) of the 84 depth-1 programs (~393k): deviation bound 2. "
@@ -352,6 +352,29 @@ def generic_field_items():
                        "fine": f"generic field {shape}: {aty} used as {need} in `{use.splitlines()[0]}`", "base": "generic-field", "kind": "mutant", "in_main": False}
 
 
+def destructuring_items():
+    """Tuple patterns in `let`, `for` and match payloads against tuple types of the same and of another size, and a component used at its
+    own and at another type."""
+    tys = {2: ("(Int, String)", '(1, "s")'), 3: ("(Int, String, Int)", '(1, "s", 2)')}
+    pats = {2: ("(a, b)", ["a + 1", 'b ^ "x"', 'a ^ "x"', "b + 1"]), 3: ("(a, b, c)", ["a + c", 'b ^ "x"', 'c ^ "x"'])}
+    for tn, (ty, lit) in tys.items():
+        for pn, (pat, uses) in pats.items():
+            for use in uses:
+                ret = "String" if "^" in use else "Int"
+                dflt = '"n"' if ret == "String" else "0"
+                forms = {
+                    "let": f"fun g(t: {ty}): {ret} {{\n  let {pat} = t\n  {use}\n}}\nprintln(string_repr(g({lit})))\n",
+                    "for": f"fun g(rows: List<{ty}>): {ret} {{\n  for {pat} in rows {{\n    return {use}\n  }}\n  {dflt}\n}}\nprintln(string_repr(g([{lit}])))\n",
+                    "match payload": f"fun g(o: Option<{ty}>): {ret} {{\n  match o {{\n    Some({pat}) => {use}\n    None => {dflt}\n  }}\n}}\nprintln(string_repr(g(Some({lit}))))\n",
+                }
+                for binder, src in forms.items():
+                    ok_size = tn == pn
+                    ok_use = (use in ("a + 1", "a + c", 'b ^ "x"'))
+                    kind = "control" if ok_size and ok_use else ("tuple pattern of another size" if not ok_size else "tuple component used at another type")
+                    yield {"src": src, "label": f"{binder} destructuring: {kind}" if kind != "control" else "destructuring control",
+                           "fine": f"{binder} {pat} against {ty}, then `{use}`", "base": "destructuring", "kind": "mutant", "in_main": False}
+
+
 def chunks(it, n):
     buf = []
     for x in it:
@@ -421,6 +444,11 @@ def run(ctx):
     ctx.bound("generic_field_programs", ex.n["programs"] - before[0])
     if ex.n["accepted"] - before[1] < 5 and not ctx.violations:
         raise Machinery("vacuous: the generic-field controls are not accepted by check")
+    before = ex.n["programs"], ex.n["accepted"]
+    ex.process(list(destructuring_items()))
+    ctx.bound("destructuring_programs", ex.n["programs"] - before[0])
+    if ex.n["accepted"] - before[1] < 5 and not ctx.violations:
+        raise Machinery("vacuous: the destructuring controls are not accepted by check")
     n_single = ex.n["programs"] - n_base
     # 3. thorough: every pair of disjoint edits of the depth-1 canonical programs, reduced alphabet
     n_pairs = 0
